@@ -1,9 +1,10 @@
-from . import streams_codec, cli, streams_ugrid
+from . import streams_codec, cli, streams_ugrid, streams_gathermeshb
 
 ID = 'C08'
 PROPS_MODULE = ['Refine.Props.C08', 'Refine.Props.C08Endian', 'Refine.Props.C08Ugrid']
 STREAMS = [streams_codec.MESHB_WRITE, streams_codec.MESHB_READ, cli.CONVERT, cli.CONVERT_MPI,
-           streams_ugrid.WRITE, streams_ugrid.READ, streams_ugrid.PART, streams_ugrid.GATHER]
+           streams_ugrid.WRITE, streams_ugrid.READ, streams_ugrid.PART, streams_ugrid.GATHER,
+           streams_gathermeshb.GATHERMESHB]
 EXPLANATION = (
     'Proved in Lean (Refine/Props/C08.lean): decodeMeshb (encodeMeshb v m) = ok m for every WellFormed mesh and '
     'v in {2,3,4} (all 16 cell groups, vertex coordinates as bit patterns, ids, geometry records with gref as a '
